@@ -111,3 +111,9 @@ cfg("MC_sub_3.cfg", sub_consts(MaxEvents="= 3", MaxSel="= 2", Aliases='= {""}', 
 cfg("MC_sub_2_big.cfg", sub_consts(), SUB_INV, spec="SpecSub", props=["SubProgress"])
 cfg("MC_sub_3_big.cfg", sub_consts(MaxEvents="= 3", MaxSel="= 2", Aliases='= {""}'), SUB_INV, spec="SpecSub", props=["SubProgress"])
 cfg("MC_sub_frag.cfg", sub_consts(MaxEvents="= 2", MaxSel="= 3", Aliases='= {""}', MaxFrags="= 1", Conds='= {"T", "Subscription"}', FieldAlpha="<- AlphaSub2", AllowRefused="= FALSE"), SUB_INV, spec="SpecSub", props=["SubProgress"])
+
+# ---- simulation configs: large documents for the R3 drivers ---------------------------------
+cfg("MC_exec_sim.cfg", exec_consts(FieldAlpha="<- AlphaAll", Aliases='= {"", "z"}', Conds='= {"", "T", "P", "A", "B", "C", "U", "Query"}', DirOpts="<- DirsBoth",
+    ArgOpts="<- ArgOptsStd", MaxSel="= 10", MaxDepth="= 4", MaxFrags="= 2", MaxOps="= 2", OpTypes='= {"query", "mutation"}', MaxOverlay="= 0"), EXEC_INV)
+cfg("MC_exec_sim3.cfg", exec_consts(FieldAlpha="<- AlphaAll", Aliases='= {"", "z"}', Conds='= {"", "T", "P", "A", "B", "C", "U"}', DirOpts="<- NoDirs",
+    ArgOpts="<- ArgOptsStd", MaxSel="= 12", MaxDepth="= 4", MaxFrags="= 1", MaxOps="= 1", OpTypes='= {"query", "mutation"}', MaxOverlay="= 0"), EXEC_INV)
